@@ -384,22 +384,24 @@ def mutate_case(rng, case):
 
 
 CLAIMED = True
-LEVEL_TEXT = ("Theorems (Coq, closed under the global context): (1) for EVERY graph that has the shape of the sensitization circuit "
-              "(prefixed copies, ties, c1_n := not c0_n, xor compares, sat) over a closed acyclic circuit whose free nodes are inputs, every "
-              "consistent valuation has sat = 1 iff inverting n changes a selected endpoint, the first copy carries evalc and the second copy "
-              "the circuit with n inverted; (2) for every graph with the shape of the sensitivity circuit, dif_out_s = 1 iff flipping s flips n "
-              "and the sen_out bits are the binary digits of the number of such s (popcount correctness as hypothesis); (3) the descending "
-              "search of props.sensitivity over the clog2/int_to_bin encoding returns the maximum for all m (incl. the unconstrained top bit at "
-              "m = 2^w), and composed with (2) it returns the sensitivity; (4) influence, avg_sensitivity, sensitize meet their definitions "
-              "relative to exact model counting / a sound and complete solver. The shapes are tied to tx.py per case: sound boolean checkers "
-              "run on every recorded implementation output, which is also compared with the output of the transform models written through "
-              "the API model. Independently the Coq oracle brute-forces the definitions on the original circuit and compares them with a "
-              "certified simulation of the recorded circuits under every valuation and with every recorded return value.")
-LEVEL_NOTE = ("Not proved for all inputs: that the model functions sensitization_transform / sensitivity_transform always produce the shape "
-              "(sensitization_spec_full / sensitivity_transform_spec_full are kept as Definitions; the _partial theorems quantify over all "
-              "graphs of the shape and the shape is checked on each recorded output). Section/theorem hypotheses (not axioms): sound and "
-              "complete SAT solver on the queries made (C01; satisfiable: brute force, theorem solver_exists), exact model counting projected "
-              "on startpoints (C08), popcount_correct = correctness of logic.popcount (discharged by C13). Trusted: Coq kernel + vm_compute, "
-              "std++, the API model of Base/Api.v, harness canonicalisation (topologically sorted dumps, Fraction(float)), pure-Python pysat "
-              "stand-in (its answers are re-checked by the oracle).")
-TECHNIQUE = "Coq proofs (shape theorems, search, props-level specs, certificates) + transform models tied by graph equality + vm_compute oracle of the definitions"
+LEVEL_TEXT = ("Theorems (Coq, closed under the global context), about the MODEL FUNCTIONS written through the API model, for all inputs: "
+              "(1) sensitization_spec: for every accepted sensitization_transform(c, n, endpoints) on a combinational blackbox-free circuit, "
+              "under every consistent valuation of the result sat = 1 iff inverting n changes a selected endpoint; the first copy carries evalc, "
+              "the second the circuit with n inverted; (2) sensitivity_transform_spec(_popcount): for every accepted sensitivity_transform(c, n), "
+              "dif_out_s = 1 iff flipping s flips n and the sen_out bits are the binary digits of the number of such s -- with the popcount circuit "
+              "of C13's model no assumption about popcount is left (its correctness, input interface and output width are derived); (3) the "
+              "descending search of props.sensitivity over the clog2/int_to_bin encoding returns the maximum for all m (incl. the unconstrained top "
+              "bit at m = 2^w), and composed with (2) it returns the sensitivity; (4) influence, avg_sensitivity, sensitize meet their definitions "
+              "relative to exact model counting / a sound and complete solver. (1) and (2) are proved by showing that the model functions always "
+              "produce the shapes sens_shape / sv_shape (on the add_subcircuit / add inversions of the C04/C06 development) and that every graph of "
+              "that shape has the property; sound boolean shape checkers also run on every recorded implementation output, which is compared with "
+              "the model output, and the recorded popcount circuit is compared with C13's model. Independently the Coq oracle brute-forces the "
+              "definitions on the original circuit and compares them with a certified simulation of the recorded circuits under every valuation "
+              "and with every recorded return value.")
+LEVEL_NOTE = ("Remaining hypotheses (not axioms): for (3)/(4) the certificate of the transform circuit T (closed, acyclic, free nodes = the "
+              "startpoints; sensitivity_spec_full is kept as a Definition, sensitivity_spec_partial / sens_spec_from_model carry the certificate) -- "
+              "`holds` checks exactly this certificate on every recorded circuit (theorem `certificate`); a sound and complete SAT solver on the "
+              "queries made (C01; satisfiable: brute force, theorem solver_exists); exact model counting projected on startpoints (C08; satisfiable: "
+              "counter_exists). Trusted: Coq kernel + vm_compute, std++, the API model of Base/Api.v, C13's popcount model, harness canonicalisation "
+              "(topologically sorted dumps, Fraction(float)), pure-Python pysat stand-in (its answers are re-checked by the oracle).")
+TECHNIQUE = "Coq proofs (model functions produce the shapes, shape theorems, search, props-level specs, certificates, C13 popcount) + graph-equality correspondence + vm_compute oracle of the definitions"
